@@ -56,7 +56,11 @@ func checkC07(run *Run, res *Result) {
 	// (streaming config pushes, journalled as config-sent): a revision counts from the moment it was sent; the
 	// previous one stays acceptable for one config-watch round plus one observe round after that (mapGrace).
 	// (With observe faults a round in progress - retries with back-off - delays the switch to the new map further.)
-	mapGrace := int64(4_000_000_000)
+	// Without any fault the switch can still take two config-watch rounds plus gocbcore's 5 s observe deadline:
+	// when a revision removes a replica, the library's observe of that copy (still in its own, older map) is held
+	// by gocbcore (which already has the new map) until the deadline; the observe round, and with it the pending
+	// reconfiguration - which then uses the snapshot taken before the wait - finish only then.
+	mapGrace := int64(12_000_000_000)
 	if run.Cfg.Faults {
 		mapGrace = 20_000_000_000
 	}
